@@ -55,7 +55,12 @@ def items(tier, seed):
         sk = sk + skel.skeletons(4, 2, 4, 0, max_positions=7)[::5]
     for i in range(0, len(sk), 6):
         its.append({"kind": "edge", "skeletons": [[list(a), b] for a, b in sk[i : i + 6]], "tier": tier, "k": i})
+    # rank-3 tensors with an index repeated inside a tensor, reached through another index first
+    its.append({"kind": "edge", "skeletons": [[list(a), b] for a, b in EDGE_FIXED], "tier": tier, "k": "fixed"})
     return its
+
+
+EDGE_FIXED = [(("aab", "bc", "cad"), ""), (("abb", "bc", "cda", "de"), ""), (("aab", "ab"), ""), (("aba", "bc", "acc"), ""), (("aab", "bcc", "d"), "")]
 
 
 # definitional interpreters -------------------------------------------------
@@ -233,8 +238,14 @@ def run_edge(item, rec):
             for k in range(ln):
                 j = symx.choose(f"e{k}", len(rest))
                 ep.append(rest.pop(j))
-            ssa = edge_path_to_ssa(ep, inputs)
-            lin = edge_path_to_linear(ep, inputs)
+            try:
+                ssa = edge_path_to_ssa(ep, inputs)
+                lin = edge_path_to_linear(ep, inputs)
+            except (symx.PathAbort, symx.Unsupported, symx.Budget):
+                raise
+            except Exception as e:  # noqa
+                rec.refute(ctx, True, "edge path -> ssa/linear (conversion raised)", lambda m: dict(case=dict(case0, edge_path=ep), raised=repr(e), signature=["C10c", list(inputs), "raise", type(e).__name__]))
+                return
             # independent recomputation
             cur = {i: set(t) for i, t in enumerate(inputs)}
             leafsets = {i: frozenset([i]) for i in range(n)}
@@ -327,7 +338,11 @@ def replay(v):
         return False, "ok"
     inputs = tuple(case["inputs"])
     ep = case["edge_path"]
-    ssa = edge_path_to_ssa(ep, inputs)
+    try:
+        ssa = edge_path_to_ssa(ep, inputs)
+        edge_path_to_linear(ep, inputs)
+    except Exception as e:  # noqa
+        return True, f"edge path {ep} on {inputs}: conversion raised {e!r}"
     cur = {i: set(t) for i, t in enumerate(inputs)}
     nxt = len(inputs)
     want = []
